@@ -218,7 +218,10 @@ def versioned_relationships(obj, versioned_column_keys):
 
     :param obj: SQLAlchemy declarative model object
     """
+    manager = get_versioning_manager(obj)
     for prop in sa.inspect(obj.__class__).relationships:
+        if manager.is_excluded_property(obj, prop.key):
+            continue
         if any(c.key in versioned_column_keys for c in prop.local_columns):
             yield prop
 
